@@ -254,6 +254,70 @@ func checkScanRow(c *sim.Ctx, row sqlittle.Row) {
 	if _, ok := guard(0, "ScanStrings", func() error { row.ScanStrings(); return nil }); ok {
 		c.Eval(1)
 	}
+	// several destinations in ONE call: each column is converted on its own, so the
+	// call fails iff one of its single-destination scans (judged above against the
+	// model) fails, and otherwise stores exactly what those stored. Destination kinds
+	// rotate over the row so that every ordered pair of kinds meets.
+	mkDest := func(kind int) interface{} {
+		switch kind % 8 {
+		case 0:
+			return new(int64)
+		case 1:
+			return new(float64)
+		case 2:
+			return new(string)
+		case 3:
+			return new([]byte)
+		case 4:
+			return new(bool)
+		case 5:
+			return new(int)
+		case 6:
+			return new(int32)
+		}
+		return nil
+	}
+	if len(row) >= 2 {
+		for rot := 0; rot < 8; rot++ {
+			for stride := 1; stride <= 3; stride += 2 {
+				multi := make([]interface{}, len(row))
+				anyErr := false
+				var single []string
+				for i := range row {
+					k := rot + i*stride
+					multi[i] = mkDest(k)
+					one := make([]interface{}, i+1)
+					one[i] = mkDest(k)
+					func() {
+						defer func() {
+							if recover() != nil {
+								anyErr = true
+							}
+						}()
+						if err := row.Scan(one...); err != nil {
+							anyErr = true
+						}
+					}()
+					single = append(single, fmt.Sprintf("%#v", derefDest(one[i])))
+				}
+				err, ok := guard(0, "several destinations", func() error { return row.Scan(multi...) })
+				c.Eval(1)
+				if !ok {
+					continue
+				}
+				if (err != nil) != anyErr {
+					c.Fail("scan-conversion", "scan:multi-destination:error", fmt.Sprintf("Row.Scan with %d destinations returned err=%v, but scanning the same columns one at a time into the same kinds %s", len(row), err, map[bool]string{true: "fails for at least one column", false: "succeeds for every column"}[anyErr]), map[string]interface{}{"row": sq.FmtRowExact(cprowVals(row)), "rotation": rot, "stride": stride})
+				}
+				if err == nil {
+					for i := range row {
+						if got := fmt.Sprintf("%#v", derefDest(multi[i])); got != single[i] {
+							c.Fail("scan-conversion", "scan:multi-destination:value", fmt.Sprintf("Row.Scan with %d destinations stored %s for column %d, scanning that column alone stores %s", len(row), got, i, single[i]), nil)
+						}
+					}
+				}
+			}
+		}
+	}
 	if after := fmt.Sprintf("%#v", []interface{}(row)); after != before {
 		c.Fail("scan-mutates-row", "scan-mutates-row", "Row.Scan changed the row", nil)
 	}
@@ -485,4 +549,35 @@ func init() {
 		},
 	})
 	extraCmd("c18life", c18life)
+}
+
+func derefDest(p interface{}) interface{} {
+	switch x := p.(type) {
+	case *int64:
+		return *x
+	case *float64:
+		if *x != *x {
+			return "NaN"
+		}
+		return *x
+	case *string:
+		return *x
+	case *[]byte:
+		return *x
+	case *bool:
+		return *x
+	case *int:
+		return *x
+	case *int32:
+		return *x
+	}
+	return nil
+}
+
+func cprowVals(r sqlittle.Row) []sq.Val {
+	out := make([]sq.Val, len(r))
+	for i, v := range r {
+		out[i] = v
+	}
+	return out
 }
